@@ -1,0 +1,6 @@
+//go:build !verif
+
+package gcsutil
+
+func simYield(string)                  {}
+func simWaitUntil(string, func() bool) {}
